@@ -62,6 +62,7 @@ type Explorer struct {
 	states   map[uint64]struct{}
 	found    map[string]*FoundViolation
 	replayDir string
+	logx      uint64
 	MaxClasses int
 }
 
@@ -101,6 +102,7 @@ func (x *Explorer) Exec(plan *Plan) *Result {
 		s.Cut++
 	}
 	x.inter[res.Inter] = struct{}{}
+	x.logx = x.logx*1099511628211 ^ res.LogHash
 	for _, st := range res.States {
 		x.states[st] = struct{}{}
 	}
@@ -266,6 +268,7 @@ func WorkerMain(t *testing.T, props map[string]Property) {
 	for _, k := range keys {
 		s.Violations = append(s.Violations, *x.found[k])
 	}
+	s.Extra["loghash_xor"] = int64(x.logx)
 	s.WallSeconds = time.Since(start).Seconds()
 	b, _ := json.Marshal(s)
 	if out := os.Getenv("VERIF_OUT"); out != "" {
